@@ -32,7 +32,7 @@ man = {
     'hooks': {'guard': 'LIBRFN_VERIF', 'enable': 'harnesses are compiled with -DLIBRFN_VERIF; no hook exists in /repo (file-static state is reached by #include of the .c file, interleavings by an include-path stdatomic.h shim)',
               'baseline_off_cmd': 'make -C /repo check', 'source_commits': [], 'add_only': True},
     'engines': [
-        {'name': 'lean-T', 'path': 'tools/c2lean.py + lean/Librfn/Gen + lean/Librfn/Props', 'kind_free_text': 'Lean 4 theorems about BitVec definitions regenerated from the C source (clang typed AST) on every run'},
+        {'name': 'lean-T', 'path': 'tools/c2lean.py + tools/c2lean2.py + lean/Librfn/Gen + lean/Librfn/Props', 'kind_free_text': 'Lean 4 theorems about BitVec definitions regenerated from the C source (clang typed AST) on every run; the second-generation translator (pointers, byte memory, sequential atomics, unrolled loops, external calls) additionally ties the models of C03 C04 C05 C10 C12 to messageq.c, ringbuf.c, pack.c and fibre_posix.c function by function (Props/C*Tie.lean)'},
         {'name': 'lean-S', 'path': 'tools/skeleton.py + lean/Librfn/Model/*Conc.lean', 'kind_free_text': 'Lean 4 inductive invariants over interleaving models whose atomic-operation skeleton is extracted from the C source on every run'},
         {'name': 'lean-D', 'path': 'lean/Librfn/Model + harness/', 'kind_free_text': 'Lean 4 theorems about hand-written executable models tied to the C code by a differential correspondence run on every check'},
     ],
